@@ -25,6 +25,7 @@ def run(chk):
     r3(chk, prog, m)
     r4(chk, prog, m)
     r5(chk, prog, m)
+    r6(chk, prog, m)
     chk.undecided_clauses += [
         "agreement with an RFC 6901 evaluator on generated trees and pointers (needs execution)",
         "json_pointer_getf/setf formatting (vasprintf on data)",
@@ -301,3 +302,110 @@ def r5(chk, prog, m):
             else:
                 chk.refuted(rid, f.name, sig, i.locstr(), "array fetch not dominated by index validation (%s) and range check (%s)" % (valid, ranged))
     chk.floor(rid, n, 1, "array fetches in pointer resolution")
+
+
+def r6(chk, prog, m):
+    rid = "C12.R6"
+    chk.rule(rid, "the numeric value of an array index comes from the saturating library conversion or from arithmetic that cannot "
+                  "wrap: an accumulation carried around a loop must be guarded, otherwise a long digit string aliases a small index")
+    f = m.functions.get("is_valid_index")
+    chk.require(f is not None, "is_valid_index not found")
+    cfg = cfg_of(f)
+    idxp = f.params[1][1]
+    stores = [i for i in f.instrs() if i.op == "store" and i.ops[1].kind == "reg" and i.ops[1].v == idxp]
+    chk.require(stores, "no store through the index out-parameter")
+    headers = {h for _, h in cfg.back_edges()}
+    n = 0
+    for st in stores:
+        n += 1
+        v = st.ops[0]
+        sig = "*idx = ..."
+        verdict = _index_value_kind(f, cfg, headers, v, set())
+        if verdict[0] == "ok":
+            chk.proven(rid, f.name, sig, st.locstr(), verdict[1])
+        elif verdict[0] == "wrap":
+            chk.refuted(rid, f.name, sig, st.locstr(),
+                        "the index is accumulated in a loop (%s) with no guard against wrap-around: a canonical decimal token of 20 or more "
+                        "digits denotes a number >= 2^64, which RFC 6901 evaluation cannot resolve, but here it is reduced modulo 2^64 and "
+                        "addresses a small index" % verdict[1], {"store": st.raw})
+        else:
+            chk.undecided(rid, f.name, sig, st.locstr(), verdict[1])
+    chk.floor(rid, n, 2, "stores of the index value")
+
+
+def _index_value_kind(f, cfg, headers, v, seen):
+    if v.kind == "int":
+        return ("ok", "constant")
+    if v.kind != "reg" or v.v in seen:
+        return ("unknown", "cyclic or non-register value")
+    seen = seen | {v.v}
+    d = f.defs.get(v.v)
+    if d is None:
+        return ("unknown", "parameter")
+    if d.op == "call":
+        if d.callee in ("strtoull", "strtoul", "strtoumax"):
+            return ("ok", "%s saturates at the type maximum on overflow" % d.callee)
+        return ("unknown", "result of %s" % d.callee)
+    if d.op in ("sext", "zext", "trunc"):
+        return _index_value_kind(f, cfg, headers, d.ops[0], seen)
+    if d.op == "load" and d.type == "i8":
+        return ("ok", "a single character")
+    if d.op in ("add", "sub") and all((o.kind == "int") or _index_value_kind(f, cfg, headers, o, seen)[0] == "ok" for o in d.ops):
+        # character arithmetic: bounded by the character range
+        if not any(_has_loop_phi(f, headers, o, set()) for o in d.ops):
+            return ("ok", "character arithmetic")
+    if d.op == "phi" or _has_loop_phi(f, headers, v, set()):
+        # recurrence through a loop header: look for a multiplication by a constant >= 2 in the cycle and for a guard
+        phi = _find_loop_phi(f, headers, v, set())
+        if phi is None:
+            return ("unknown", "merged value")
+        mul = _recurrence_mul(f, phi)
+        if mul is None:
+            return ("unknown", "loop-carried value without a multiplicative update")
+        guarded = False
+        for u in cfg.users(phi.res):
+            if u.op == "icmp" and u.x["pred"] in ("ugt", "uge", "ult", "ule", "sgt", "sge", "slt", "sle"):
+                guarded = True
+        for u in cfg.users(mul.res):
+            if u.op == "icmp":
+                guarded = True
+        if any(i.op == "call" and i.callee and "overflow" in i.callee for i in f.instrs()):
+            guarded = True
+        if guarded:
+            return ("unknown", "accumulation with a comparison on the accumulator: tightness of the guard not decided")
+        return ("wrap", "x = x * %d + digit" % mul.ops[1].v if mul.ops[1].kind == "int" else "x = x * k + digit")
+    return ("unknown", d.raw[:60])
+
+
+def _has_loop_phi(f, headers, v, seen):
+    return _find_loop_phi(f, headers, v, seen) is not None
+
+
+def _find_loop_phi(f, headers, v, seen):
+    if v.kind != "reg" or v.v in seen or len(seen) > 20:
+        return None
+    seen.add(v.v)
+    d = f.defs.get(v.v)
+    if d is None:
+        return None
+    if d.op == "phi" and d.block in headers:
+        return d
+    if d.op in ("phi", "add", "sub", "mul", "shl", "sext", "zext", "trunc"):
+        for o in d.ops:
+            r = _find_loop_phi(f, headers, o, seen)
+            if r is not None:
+                return r
+    return None
+
+
+def _recurrence_mul(f, phi):
+    """a mul/shl by a constant >= 2 of the phi's value that flows back into the phi"""
+    cfg = cfg_of(f)
+    for u in cfg.users(phi.res):
+        if u.op == "mul" and any(o.kind == "int" and abs(o.v) >= 2 for o in u.ops):
+            if u.ops[1].kind != "int":
+                u.ops = [u.ops[1], u.ops[0]]
+            return u
+        if u.op == "shl" and u.ops[1].kind == "int" and u.ops[1].v >= 1:
+            return u
+    return None
